@@ -163,6 +163,24 @@ fn scripts() -> Vec<(&'static str, String)> {
     v.into_iter().map(|(n, s)| (n, s.to_string())).collect()
 }
 
+/// the helper files of the include cases, in `inc`
+fn write_inc_files(inc: &Path) {
+    let _ = std::fs::create_dir_all(inc);
+    let p = |n: &str| inc.join(n).to_string_lossy().to_string();
+    std::fs::write(inc.join("helper.ds"), "echo RUNS helper\n").expect("write");
+    std::fs::write(inc.join("other.ds"), "x = set 1\n").expect("write");
+    std::fs::write(inc.join("nested.ds"), format!("!include_files {}\necho RUNS nested\n", p("helper.ds"))).expect("write");
+    std::fs::write(inc.join("twice_inside.ds"), format!("!include_files {}\n!include_files {}\n", p("helper.ds"), p("helper.ds"))).expect("write");
+    std::fs::write(inc.join("broken.ds"), "echo \"unterminated\n").expect("write");
+    std::fs::write(inc.join("selfish.ds"), format!("!include_files {}\n", p("selfish.ds"))).expect("write");
+}
+
+/// the directory of helper files a case text refers to, if any
+fn inc_dir_of(text: &str) -> Option<PathBuf> {
+    let marker = "/c20/inc/";
+    text.split_whitespace().find_map(|t| t.find(marker).map(|i| PathBuf::from(&t[..i + marker.len() - 1])))
+}
+
 pub fn bounds(tier: Tier) -> Value {
     json!({"generated_scripts": if tier == Tier::Thorough { "exit N for N in -600..=600 (2 forms); every script of 1..4 lines over a 14-line pool (3 forms); lint line at 3 positions" } else { "none" }, "scripts": scripts().len(), "invocation_forms": ["file", "-e", "--eval"], "lint_grid": "label x command x output, each in {absent, lower, Upper, mIxed_1, non-ASCII upper} x {parsable, unparsable second line} x {-l, --lint}", "other": ["--version", "--help", "-h"]})
 }
@@ -409,6 +427,63 @@ pub fn worker(w: &mut Worker) {
             }
         }
     }
+    // files that include other files: run as a file and as text against the library, and linted (a
+    // file whose includes parse and are all lower case is accepted; one that includes a file that
+    // does not parse, or itself, is not)
+    {
+        let inc = dir.join("inc");
+        write_inc_files(&inc);
+        let p = |n: &str| inc.join(n).to_string_lossy().to_string();
+        let cases: Vec<(&str, String, bool)> = vec![
+            ("include-once", format!("!include_files {}\necho RUNS first", p("helper.ds")), true),
+            ("include-twice-two-lines", format!("!include_files {}\necho RUNS first\n!include_files {}", p("helper.ds"), p("helper.ds")), true),
+            ("include-twice-one-line", format!("echo RUNS first\n!include_files {} {}", p("helper.ds"), p("helper.ds")), true),
+            ("include-two-files-then-first-again", format!("!include_files {} {}\n!include_files {}\necho RUNS first", p("helper.ds"), p("other.ds"), p("helper.ds")), true),
+            ("include-diamond", format!("!include_files {}\n!include_files {}\necho RUNS first", p("helper.ds"), p("nested.ds")), true),
+            ("include-diamond-other-order", format!("!include_files {}\n!include_files {}\necho RUNS first", p("nested.ds"), p("helper.ds")), true),
+            ("include-nested-twice", format!("!include_files {}\n!include_files {}\necho RUNS first", p("nested.ds"), p("nested.ds")), true),
+            ("include-file-that-includes-twice", format!("!include_files {}\necho RUNS first", p("twice_inside.ds")), true),
+            ("include-broken", format!("echo RUNS first\n!include_files {}", p("broken.ds")), false),
+            ("include-self-including", format!("echo RUNS first\n!include_files {}", p("selfish.ds")), false),
+            ("include-good-then-broken", format!("!include_files {} {}\necho RUNS first", p("helper.ds"), p("broken.ds")), false),
+        ];
+        for (name, text, parses) in &cases {
+            for form in ["file", "-e", "--eval"] {
+                compare_run(w, &duck, &me, &dir, name, name, text, form);
+            }
+            for flag in ["-l", "--lint"] {
+                if !w.take() {
+                    continue;
+                }
+                let cj = json!({"kind": "lint", "flag": flag, "text": text, "name": name});
+                w.begin(|| cj.clone());
+                let file = dir.join("lint-inc.ds");
+                std::fs::write(&file, text).expect("write");
+                let d = match run_proc(&duck, &[flag, &file.to_string_lossy()], &dir) {
+                    Ok(d) => d,
+                    Err(e) => {
+                        w.fail("harness:spawn", &e, cj);
+                        continue;
+                    }
+                };
+                w.add_transitions(1);
+                let got_ok = d.code == Some(0);
+                if d.stdout.lines().any(|l| l.trim().starts_with("RUNS")) {
+                    w.fail("lint:script-was-run", &format!("{} ran the script {}: {:?}", flag, name, d.stdout), cj);
+                } else if got_ok != *parses {
+                    w.fail(
+                        if *parses { "lint:rejected-a-clean-file" } else { "lint:accepted-an-unparsable-file" },
+                        &format!("{} on {} ({:?}): exit {:?}, output {:?}, expected {}", flag, name, text, d.code, d.stdout, if *parses { "acceptance" } else { "rejection" }),
+                        cj,
+                    );
+                } else if !got_ok && !d.stdout.contains("Error:") {
+                    w.fail("lint:no-error-message", &format!("{} on {}: output {:?}", flag, name, d.stdout), cj);
+                } else {
+                    w.pass(true, hash64(&("lint-inc", got_ok, *name)));
+                }
+            }
+        }
+    }
     // version / help
     for arg in ["--version", "--help", "-h"] {
         if !w.take() {
@@ -439,6 +514,11 @@ pub fn replay(case: &Value) -> Result<String, String> {
     let duck = duck_path();
     let dir = scratch_root().join(format!("replay-c20-{}", std::process::id()));
     let _ = std::fs::create_dir_all(&dir);
+    // the helper files of an include case are put back where the case text expects them
+    let made_inc = case["script"].as_str().or(case["text"].as_str()).and_then(inc_dir_of).filter(|d| !d.exists());
+    if let Some(d) = &made_inc {
+        write_inc_files(d);
+    }
     let r = match case["kind"].as_str().unwrap_or("") {
         "run" => {
             let text = case["script"].as_str().unwrap_or("");
@@ -460,6 +540,17 @@ pub fn replay(case: &Value) -> Result<String, String> {
     };
     let d = dir.to_string_lossy().to_string();
     let _ = std::fs::remove_dir_all(&dir);
+    if let Some(d) = &made_inc {
+        let _ = std::fs::remove_dir_all(d);
+        // and the (now empty) directories above it that were made for it
+        let mut up = d.parent();
+        while let Some(u) = up {
+            if std::fs::remove_dir(u).is_err() {
+                break;
+            }
+            up = u.parent();
+        }
+    }
     Ok(format!("exit {:?}\nstdout: {}", r.code, r.stdout.replace(&d, "<dir>")))
 }
 
